@@ -25,7 +25,8 @@
    Queries are state functions (Obs): Steps = list(genTimeSteps()), Names = keys(), has = hasTimeStep,
    Hist = getHistories (by serial number), HistLoc = getHistoriesByLocation, HistSel = getHistories(timeSteps=...),
    TrackView / TimeSteps = HistoryTrackerInterface.getBlockHistoryVal / getTimeSteps (armi/bookkeeping/historyTracker.py,
-   through DatabaseInterface.getHistory),
+   through DatabaseInterface.getHistory), DiHist / DiHistLoc = DatabaseInterface.getHistory / getHistories(byLocation) of a
+   running case with explicit timeSteps that include the current step (before and after that step was written),
    Dump = what Database(file, "r") shows of a closed file (attrs["successfulCompletion"], every group loaded).
 
    Abstract state
@@ -42,7 +43,11 @@
    * "every written snapshot and nothing else is listed, in chronological order": genTimeSteps yields one (c, n) per
      group in name order, so a labelled snapshot repeats its pair (DESIGN S13).  Listing = that sequence; it is
      non-decreasing in (c, n) and its set of pairs is exactly the set of pairs written.  Cycle and node < 100
-     (two-digit names), labels start with a letter and are compared in ASCII order (Labels constant, in that order).
+     (two-digit names); labels are free text (the documentation's example is "-special") compared in ASCII order (Labels
+     constant, in that order; the configurations use "", " sp", "-special", ".v2", "EOL", "error", "x").
+   * "the default if unset": a parameter no object has assigned yet has no column in a snapshot at all; a load of that snapshot
+     and every history of that step answer with the parameter's default all the same (value 0 of the model; the adapter starts
+     every history with parameter 1 -- numeric default -- never assigned, parameter 2 -- default None -- unset).
    * "a parameter history returns for each step the value (or the default if unset) that the same object ... had":
      one entry per listed (c, n); when several snapshots share the pair (labels) the one last in name order wins
      (getHistories walks all groups and overwrites hist[(c, n)]); objects are matched by serial number, so the
@@ -95,7 +100,9 @@ Keys(f) == {<<f.snaps[i].c, f.snaps[i].n, f.snaps[i].lab>> : i \in 1..Len(f.snap
 PairsOf(f) == {Pair(f.snaps[i]) : i \in 1..Len(f.snaps)}
 PlainPairs(f) == {Pair(f.snaps[i]) : i \in {j \in 1..Len(f.snaps) : f.snaps[j].lab = ""}}
 
-ProbeLabels == <<"", "EOL", "error", "x">>      \* labels hasTimeStep is probed with (the adapter uses the same list)
+\* labels hasTimeStep is probed with (the adapter uses the same list), in ASCII order: state-point names are free text -- the
+\* documentation's own example is "-special", the debug labels of the operator contain '-' -- so they need not be words
+ProbeLabels == <<"", " sp", "-special", ".v2", "EOL", "error", "x">>
 AliveSeqOf(lv) == SetToSortSeq({o \in Obj : lv[o]}, <)
 
 (* ---------- queries ---------- *)
@@ -152,8 +159,33 @@ TimeSteps(f) ==
         hl == Put(h, now[1], now[2], now) IN
     [i \in 1..Len(hl) |-> hl[i][3]]
 
+\* DatabaseInterface.getHistory(comp, params, timeSteps) / getHistories(comps, params, timeSteps, byLocation): the wrappers of a
+\* running case (armi/bookkeeping/db/databaseInterface.py).  They take the current step out of the request, ask the Database
+\* for the rest, and -- when the current step was requested -- report the LIVE value under it, whether or not the file
+\* already holds that step (the snapshot of a step is written at its end; until the reactor moves on, "the value at the
+\* current step" is the live one).  The by-identity variant inherits Database.getHistories' own live entry (WithLive).
+SnapsOf(f, sel) == LET ix == SelectSeq([i \in 1..Len(f.snaps) |-> i], LAMBDA i : f.snaps[i].lab = "" /\ Pair(f.snaps[i]) \in {sel[k] : k \in 1..Len(sel)}) IN
+                   [k \in 1..Len(ix) |-> f.snaps[ix[k]]]
+Others(sel) == SelectSeq(sel, LAMBDA pr : pr # now)
+NowAsked(sel) == \E k \in 1..Len(sel) : sel[k] = now
+DiHist(f, sel, o, p) ==
+    LET h == WithLive(HistStored(SnapsOf(f, Others(sel)), o, p), o, p) IN
+    ByStep(IF NowAsked(sel) THEN Put(h, now[1], now[2], LiveVal(o, p)) ELSE h)
+DiHistLoc(f, sel, o, p) ==
+    LET h == FoldLeft(LAMBDA acc, s :
+                        LET at == {x \in Obj : s.st.live[x] /\ s.st.loc[x] = loc[o]} IN
+                        IF at = {} THEN acc ELSE Put(acc, s.c, s.n, Stored(s, CHOOSE x \in at : TRUE, p)),
+                      <<>>, SnapsOf(f, Others(sel))) IN
+    ByStep(IF NowAsked(sel) THEN Put(h, now[1], now[2], LiveVal(o, p)) ELSE h)
+\* the requests: every step that has an unlabelled snapshot, latest first, and the current step (written or not) at the end
+AskAll(f) == [i \in 1..Len(PlainSel(f)) |-> Pair(PlainSel(f)[i])] \o (IF now \in PlainPairs(f) THEN <<>> ELSE <<now>>)
+AskNow == <<now>>
+
 \* Database.load(c, n, statePointName=l): the reactor as stored; its time state is what the file says
-Loaded(s) == [kind |-> "load", cyc |-> s.c, nod |-> s.n, st |-> s.st]
+\* bp: the blueprints that come with a loaded reactor are the ones stored with the inputs (0 = as written), however often and
+\* whatever was loaded before and whatever was done to what those loads returned (the adapter overwrites the parameters and
+\* the blueprints of every reactor a load has returned, after looking at it): loads are independent of each other
+Loaded(s) == [kind |-> "load", cyc |-> s.c, nod |-> s.n, st |-> s.st, bp |-> 0]
 
 (* ---------- helpers for actions ---------- *)
 Ok(a) == err' = "" /\ act' = a /\ res' = NoRes
@@ -261,26 +293,40 @@ HistView(f, H(_, _, _), p0) ==
     [k \in 1..Len(AliveSeq) |-> [o |-> AliveSeq[k], h |-> [q \in 1..(NPar - p0 + 1) |-> H(f, AliveSeq[k], q + p0 - 1)]]]
 \* a closed file as Database(path, "r") shows it: the success mark, the listing, every snapshot loaded
 Dump(f) == [ok |-> f.ok, names |-> Names(f),
-            snaps |-> [i \in 1..Len(f.snaps) |-> [cyc |-> f.snaps[i].c, nod |-> f.snaps[i].n, st |-> StateView(f.snaps[i].st)]]]
-Obs == [reactor |-> StateView(Cur), now |-> now,
-        astate |-> A.st, bstate |-> B.st,
-        steps |-> IF Writable THEN Steps(A) ELSE <<>>,
-        names |-> IF Writable THEN Names(A) ELSE <<>>,
-        \* hasTimeStep(c, n, l) for every listed (c, n) and every label of the probe set: true exactly for the snapshots that exist
-        has   |-> IF Writable THEN [i \in 1..Len(A.snaps) |->
-                                       [j \in 1..Len(ProbeLabels) |-> HasKey(A.snaps, A.snaps[i].c, A.snaps[i].n, ProbeLabels[j])]]
-                  ELSE <<>>,
-        hbv   |-> IF Writable THEN TrackView(A) ELSE <<>>,                       \* HistoryTrackerInterface.getBlockHistoryVal
-        hts   |-> IF Writable THEN TimeSteps(A) ELSE <<>>,                       \* HistoryTrackerInterface.getTimeSteps
-        hist  |-> IF Writable THEN HistView(A, Hist, 1) ELSE <<>>,        \* getHistories(blocks, params)
-        hpos  |-> IF Writable THEN [k \in 1..Len(AliveSeq) |-> [o |-> AliveSeq[k], h |-> Hist(A, AliveSeq[k], 0)]] ELSE <<>>,
-                                                                           \* getHistories(assemblies, ["location"])
-        sel   |-> IF Writable THEN [i \in 1..Len(PlainSel(A)) |-> Pair(PlainSel(A)[i])] ELSE <<>>,
-        hsel  |-> IF Writable THEN HistView(A, HistSel, 1) ELSE <<>>,     \* getHistories(blocks, params, timeSteps=sel)
-        hloc  |-> IF Writable THEN HistView(A, HistLoc, 1) ELSE <<>>,     \* getHistoriesByLocation(blocks, params)
-        dumpA |-> IF A.st = "closed" THEN Dump(A) ELSE [ok |-> FALSE, names |-> <<>>, snaps |-> <<>>],
-        dumpB |-> IF B.st = "closed" THEN Dump(B) ELSE [ok |-> FALSE, names |-> <<>>, snaps |-> <<>>]]
-ResView == IF res.kind = "load" THEN [kind |-> "load", cyc |-> res.cyc, nod |-> res.nod, st |-> StateView(res.st)] ELSE res
+            snaps |-> [i \in 1..Len(f.snaps) |-> [cyc |-> f.snaps[i].c, nod |-> f.snaps[i].n, st |-> StateView(f.snaps[i].st), bp |-> 0]]]
+NoDump == [ok |-> FALSE, names |-> <<>>, snaps |-> <<>>]
+ObsKeys == {"reactor", "now", "astate", "bstate", "steps", "names", "has", "ask", "hdi", "hdi1", "hdil", "hbv", "hts", "hist",
+            "hpos", "sel", "hsel", "hloc", "dumpA", "dumpB"}
+\* one field of the observation (the trace specification evaluates only the fields an event logged)
+ObsField(k) ==
+    CASE k = "reactor" -> StateView(Cur)
+      [] k = "now"     -> now
+      [] k = "astate"  -> A.st
+      [] k = "bstate"  -> B.st
+      [] k = "dumpA"   -> IF A.st = "closed" THEN Dump(A) ELSE NoDump
+      [] k = "dumpB"   -> IF B.st = "closed" THEN Dump(B) ELSE NoDump
+      [] ~Writable     -> <<>>
+      [] k = "steps"   -> Steps(A)
+      [] k = "names"   -> Names(A)
+      \* hasTimeStep(c, n, l) for every listed (c, n) and every label of the probe set: true exactly for the snapshots that exist
+      [] k = "has"     -> [i \in 1..Len(A.snaps) |->
+                              [j \in 1..Len(ProbeLabels) |-> HasKey(A.snaps, A.snaps[i].c, A.snaps[i].n, ProbeLabels[j])]]
+      \* DatabaseInterface.getHistory(block, params, timeSteps = every plain step and the current one) / (..., [current step]) /
+      \* getHistories(blocks, params, [current step and every plain step], byLocation = TRUE)
+      [] k = "ask"     -> AskAll(A)
+      [] k = "hdi"     -> HistView(A, LAMBDA f, o, p : DiHist(f, AskAll(f), o, p), 1)
+      [] k = "hdi1"    -> HistView(A, LAMBDA f, o, p : DiHist(f, AskNow, o, p), 1)
+      [] k = "hdil"    -> HistView(A, LAMBDA f, o, p : DiHistLoc(f, AskAll(f), o, p), 1)
+      [] k = "hbv"     -> TrackView(A)                                             \* HistoryTrackerInterface.getBlockHistoryVal
+      [] k = "hts"     -> TimeSteps(A)                                             \* HistoryTrackerInterface.getTimeSteps
+      [] k = "hist"    -> HistView(A, Hist, 1)                                     \* getHistories(blocks, params)
+      [] k = "hpos"    -> [i \in 1..Len(AliveSeq) |-> [o |-> AliveSeq[i], h |-> Hist(A, AliveSeq[i], 0)]]
+                                                                                  \* getHistories(assemblies, ["location"])
+      [] k = "sel"     -> [i \in 1..Len(PlainSel(A)) |-> Pair(PlainSel(A)[i])]
+      [] k = "hsel"    -> HistView(A, HistSel, 1)                                  \* getHistories(blocks, params, timeSteps=sel)
+      [] k = "hloc"    -> HistView(A, HistLoc, 1)                                  \* getHistoriesByLocation(blocks, params)
+Obs == [k \in ObsKeys |-> ObsField(k)]
+ResView == IF res.kind = "load" THEN [kind |-> "load", cyc |-> res.cyc, nod |-> res.nod, st |-> StateView(res.st), bp |-> res.bp] ELSE res
 
 (* ---------- the clauses of the statement ---------- *)
 SnapOK(s) == /\ s.c \in Nat /\ s.n \in Nat /\ s.lab \in LabSet /\ s.off \in Nat /\ s.w \in 1..Len(wlog)
